@@ -13,7 +13,9 @@ from oracles import civil
 LEAN_MODULES = ["FeedVerif.Props.C02", "FeedVerif.Model.JsonDriver", "FeedVerif.Model.MixinDriver"]
 CORR_OBLIGATIONS = ["M-json ~ JSONParser on generated JSON feeds of arbitrary shape (fields present / absent / of the documented types): feed data, entries, version, raised-or-not",
                     "M-mixin (stage 1) ~ the real machine on the ROOT events of the six XML serialisations (version detection) and on the date elements of every format, feed and entry "
-                    "context, both back ends (the real _parse_date's answer is passed to the model as a parameter)"]
+                    "context, both back ends (the real _parse_date's answer is passed to the model as a parameter); M-mixin (stage 2) ~ the real machine on title and the text-construct "
+                    "elements (push_content / pop_content / pop with content parameters), the answers of looks_like_html, decode_entities, resolve_relative_uris, sanitize_html and "
+                    "base64 being passed to the model as parameters"]
 TRUSTED = ["Lean model FeedVerif/Model/Json.lean of parsers/json.py (complete: feed, parse_entry, parse_author, parse_attachment); json.load, _parse_date and sanitize_html are parameters",
            "tools/feedgen.py serialisers and the civil-date oracle (independent of feedparser)",
            "the per-field XML normalisation (title / link / id / summary / author / dates / categories / enclosures through the dedicated handlers) is decided by the eight-format differential "
@@ -252,7 +254,10 @@ def correspondence(ctx):
                  '<item><%s:date>%s</%s:date><dcterms:%s>%s</dcterms:%s></item></rdf:RDF>') % (
                 *(lambda p: (p, p, feedgen.d3339(t1), p))(rng.choice(["dc", "d", "DC"])), *(lambda n: (n, feedgen.d3339(t2), n))(rng.choice(["created", "issued", "modified"])))
         docs.append(d.encode("utf-8"))
-    r2 = mixlib.corr(ctx, docs, {"content-type": "application/xml; charset=utf-8"}, loose_p=0.3)
+    # stage 2 of M-mixin: title and the text-construct elements recognised from their source (subtitle / tagline / rights / copyright / info / dc:rights / ...),
+    # feed and entry context, typed / untyped / base64, HTML-looking or not, under the per-call options -- the post-processing steps are recorded oracles
+    docs += [mixlib.content_doc(rng) for _ in range(ctx.n(150, 2500))]
+    r2 = mixlib.corr(ctx, docs, {"content-type": "application/xml; charset=utf-8", "content-location": "http://base.example/dir/"}, loose_p=0.3)
     res["cases"] += r2["cases"]
     res["distinct"] += r2["distinct"]
     res["unmodelled"] = r2["unmodelled"]
